@@ -1,6 +1,7 @@
 """C15 — sync committee members message every slot of their period, independently
 (spec/SyncCommittee.tla)."""
 import concurrent.futures
+import importlib.util
 import json
 import os
 import random
@@ -39,6 +40,12 @@ def _own_overlay(pid):
 
 
 vf.overlay_file = _own_overlay
+
+# the aggregation pipeline that the aggregation jobs of this property start (spec/Aggregation.tla, pipeline B)
+_spec = importlib.util.spec_from_file_location(
+    "check_aggregation", os.path.join(os.path.dirname(os.path.abspath(__file__)), "aggregation.py"))
+agg = importlib.util.module_from_spec(_spec)
+_spec.loader.exec_module(agg)
 
 
 def driver(scenarios, tag):
@@ -201,6 +208,7 @@ def run(tier):
         "wallet accounts (signatures verified with BLS), the others on a scripted signer",
     ]
     # the exhaustive runs and the scenario generators are independent TLC processes: run them side by side
+    ah = agg.start(PID, "B", tier)
     with concurrent.futures.ThreadPoolExecutor(max_workers=5) as pool:
         gens = generate(tier, pool)
         mcs = [pool.submit(vf.tlc_exhaustive, PID, "SyncCommittee", "MC_SyncCommittee.cfg", workers=4),
@@ -224,10 +232,16 @@ def run(tier):
             scb.append({"sc": 100000 + i, "signer": "real" if (not zero and i % 3 == 0) else "scripted",
                         "spe": 3, "epp": 3, "steps": h})
         vf.conformance(v, scb, driver, "Trace_SyncCommittee", "Trace_SyncCommittee_b.cfg", sig_of, nontrivial, chunk=1500)
+    # additional conformance block: what the aggregation jobs set up above do when they run
+    # (synccommitteeaggregator/standard SetBeaconBlockRoot / Aggregate against pipeline B of Aggregation.tla)
+    agg.finish(v, ah)
     v.coverage["rule"] = ("behaviours of SyncCommittee.tla generated by TLC simulation (seeded; a messenger-centred and a "
                           "window-centred constant set), replayed on the real controller + sync committee messenger + "
                           "aggregator (+ real signer for a third); non-trivial = a Schedule with a non-empty window or a "
-                          "message job with a healthy member; distinct by step list and signer")
+                          "message job with a healthy member; distinct by step list and signer.  Aggregation "
+                          "pipeline: every one-job behaviour of Scen_Aggregation (B) enumerated by TLC plus simulated "
+                          "two-job histories (quick: a seeded sample with every outcome class), replayed on the real "
+                          "synccommitteeaggregator; non-trivial = a contribution was obtained")
     return v.finish()
 
 
@@ -235,6 +249,9 @@ def replay(path):
     v = vf.Verdict(PID, "quick")
     with open(os.path.join(path, "scenario.json")) as fh:
         s = json.load(fh)
+    if agg.is_mine(s):
+        agg.replay(v, PID, s)
+        return 1 if v.violations else 0
     cfg = "Trace_SyncCommittee_b.cfg" if s.get("spe", SPE) == 3 else "Trace_SyncCommittee.cfg"
     vf.conformance(v, [s], driver, "Trace_SyncCommittee", cfg, sig_of, nontrivial)
     return 1 if v.violations else 0
